@@ -23,6 +23,9 @@ def grid_of(name):
         return [BASE, BASE + timedelta(seconds=60), BASE + timedelta(days=1, seconds=60), BASE + timedelta(days=4, seconds=60)]
     if name == "min5":
         return [BASE + timedelta(minutes=i) for i in range(5)]
+    if name == "min12":
+        # a longer stream: with two contracts 24 bar events, every timestamp shared by two of them
+        return [BASE + timedelta(minutes=i) for i in range(12)]
     raise KeyError(name)
 
 
@@ -261,14 +264,14 @@ def run_config(cfg):
 
 
 CROSSED = [("L", [0, 30]), ("fold", ["whole", "late", "middle", "endmid", "startmid", "bothmid"]), ("hist", ["all", "markov", "warm1", "warm2"])]
-DEVIATE = [("grid", ["min", "day", "mixed"]), ("ncon", [2, 1]), ("eplen", [None, 1, 2]), ("start", [0, 1, 2]),
+DEVIATE = [("grid", ["min", "day", "mixed", "min12"]), ("ncon", [2, 1]), ("eplen", [None, 1, 2]), ("start", [0, 1, 2]),
            ("unsorted", [False, True]), ("extras_first", [False, True]), ("swap_extras", [False, True])]
 
 
 def configs(tier):
     bound = 2 if tier == "quick" else 3
     max_extras = 2 if tier == "quick" else 3
-    npos = len(positions(grid_of("min"), 30))
+    npos = len(positions(grid_of("min"), 30))   # extra-event positions are taken around the first four grid points
     items = [(pi, kind) for pi in range(npos) for kind in (("Q", "C") if tier == "quick" else ("Q", "C", "D"))]
     for crossed in itertools.product(*[alts for _, alts in CROSSED]):
         base = dict(zip([n for n, _ in CROSSED], crossed))
